@@ -70,17 +70,35 @@ def uiOp (j : Json) : Except String Res := do
     let mut s := s0
     let mut snaps : Array Json := #[snapshot s]
     let mut panicked := false
+    let mut opened : Array Json := #[]
     for k in keys do
       if panicked then break
       -- a terminal resize changes no state the model holds (frames are judged by the predicate)
       if "RESIZE ".toList.isPrefixOf k then
         snaps := snaps.push (snapshot s)
         continue
+      -- a key token followed by a resize while its load is in flight: the settled state is the
+      -- key token's (the resize changes no state the model holds)
+      let k : Str := if "LOADRESIZE ".toList.isPrefixOf k then
+          (((String.ofList k).splitOn " ").drop 3 |> String.intercalate " ").toList
+        else k
+      -- every hook started so far exits
+      if k == "HOOKDONE".toList then
+        s := Ui.hookDone s
+        snaps := snaps.push (snapshot s)
+        continue
       -- the harness sends the UTF-8 bytes of the token one by one
       let bytes := (String.ofList k).toUTF8.toList.map (·.toNat)
-      match Ui.run w s bytes with
-      | .ok s' => s := s'; snaps := snaps.push (snapshot s)
-      | .error _ => panicked := true
+      -- byte by byte, to see which keys start the hook and with which link
+      for b in bytes do
+        if panicked then break
+        match Ui.opens w s b with
+        | some l => opened := opened.push (js l)
+        | none => pure ()
+        match Ui.update w s b with
+        | .ok s' => s := s'
+        | .error _ => panicked := true
+      if !panicked then snaps := snaps.push (snapshot s)
     -- predicates on the implementation's output
     -- (lines of the frame, terminal height in force when it was drawn); the property speaks of
     -- terminals of at least two rows (a status line on a one-row terminal yields two lines)
@@ -93,11 +111,16 @@ def uiOp (j : Json) : Except String Res := do
       | .ok (Json.arr a) => a.toList.filterMap fun v => match v with | Json.str s => some s.toList | _ => none
       | _ => []
     let notWedged := (impl.getObjVal? "wedged").toOption.isNone
-    pure { model := if panicked then panicJson else Json.mkObj [("snaps", Json.arr snaps)],
+    -- C12/C20 through the UI: what the hook was started with, in order, is what the numbers and
+    -- media keys typed name (also while an earlier hook was still running)
+    let openedOk := panicked || (impl.getObjVal? "opened").toOption.isNone ||
+      (impl.getObjVal? "opened").toOption == some (Json.arr opened)
+    pure { model := if panicked then panicJson else Json.mkObj [("opened", Json.arr opened), ("snaps", Json.arr snaps)],
            preds := [("frames_have_terminal_height", heights.all (fun p => p.2 < 2 || p.1 == p.2)),
                      ("frames_safe", frames.all Safe.safe),
                      ("frames_neutral", frames.all Cells.neutralAtBreaks),
-                     ("interface_not_wedged", notWedged)],
+                     ("interface_not_wedged", notWedged),
+                     ("numbers_open_their_targets", openedOk)],
            nontrivial := keys.length ≥ 3 }
 
 end Ops
